@@ -94,6 +94,18 @@ def _from_qname(cls, qname):
     return res
 
 
+from xsdata.formats.dataclass.models.builders import XmlMetaBuilder  # noqa: E402
+
+BUILDS = []        # (clazz, parent_namespace) of every XmlMetaBuilder.build call
+_orig_build = XmlMetaBuilder.build
+
+
+def _build(self, clazz, parent_namespace):
+    BUILDS.append((clazz, parent_namespace))
+    return _orig_build(self, clazz, parent_namespace)
+
+
+XmlMetaBuilder.build = _build
 ConverterFactory.serialize = _serialize
 ConverterFactory.test = _test
 ConverterFactory.deserialize = _deserialize
@@ -247,7 +259,8 @@ def load(src):
 
 
 def run_model(m):
-    out = {"universe": None, "unsupported": None, "cases": []}
+    out = {"universe": None, "unsupported": None, "cases": [], "pns": None}
+    del BUILDS[:]
     try:
         name, mod = load(m["src"])
     except Exception as e:  # noqa
@@ -295,6 +308,11 @@ def run_model(m):
                 res["skip"] = "events: " + str(e)
         try:
             out["universe"] = ex.universe_term()
+            first = {}
+            for clazz, pn in BUILDS:
+                if clazz in ex.cid and clazz not in first:
+                    first[clazz] = pn
+            out["pns"] = "[" + "; ".join(f"({bx.cN(ex.cid[c])}, {bx.copt(pn, bx.cstr)})" for c, pn in first.items()) + "]"
         except bx.Unsupported as e:
             out["unsupported"] = "universe: " + str(e)
         except Exception as e:  # noqa
